@@ -186,6 +186,29 @@ pub fn same_linear_model(a: &LinearModel, b: &LinearModel) -> Result<Vec<String>
                 Err(_) => None,
             }
         };
+        // the rows that carry a contradiction (no variable, false) keep their names like every other row
+        let false_rows = |lm: &LinearModel| -> Vec<String> {
+            let mut v: Vec<String> = row_keys(lm)
+                .into_iter()
+                .filter(|r| r.0.is_empty() && !r.3.is_empty())
+                .filter(|r| !match r.1.as_str() {
+                    "<=" => 0.0 <= r.2,
+                    ">=" => 0.0 >= r.2,
+                    "=" => r.2 == 0.0,
+                    "<" => 0.0 < r.2,
+                    _ => 0.0 > r.2,
+                })
+                .map(|r| r.3)
+                .collect();
+            v.sort();
+            v
+        };
+        let (fa, fb) = (false_rows(a), false_rows(b));
+        // (the second compilation may turn further rows into named false rows - 'k: b = -0.5' over a Boolean b
+        // becomes 'k: 0 = 1', part of the re-normalisation - but a false row that was already there stays as it is)
+        if fa.iter().any(|n| !fb.contains(n)) {
+            return Err(("contradiction-row-name-differs".into(), format!("named false rows {fa:?} became {fb:?}")));
+        }
         return match (infeasible(a), infeasible(b)) {
             (Some(true), Some(true)) => Ok(vec![]),
             (Some(x), Some(y)) if x != y => Err((
@@ -304,6 +327,16 @@ impl Driver for C12 {
                 if m.sense == Sense::Satisfy {
                     m.sense = Sense::Min;
                 }
+            }
+            // a named bare assertion that folds to false (the compiler carries it as the row 0 = 1)
+            if rng.gen_bool(0.06) {
+                let bools: Vec<usize> = (0..m.n()).filter(|i| m.types[*i] == VT::Bool).collect();
+                let e = match (rng.gen_range(0..3), bools.first()) {
+                    (0, Some(&b)) => E::And(vec![E::Var(b), E::Num(0.0)]),
+                    (1, _) => E::Not(Box::new(E::Num(1.0))),
+                    _ => E::Num(0.0),
+                };
+                m.cons.push(Con { name: Some("never".into()), kind: CKind::Assert(e) });
             }
             // operands that are constant sub-expressions: a / (p / q), a - (p - q), a / (p * q), a * (p / q)
             if rng.gen_bool(0.3) {
